@@ -1,8 +1,10 @@
 import STProofs.PPolyLookup
 import STProofs.PPolyRoutes
+import STProofs.PPolyDeriv
 /-! # C03 — lookup is the half-open-interval piece, clamped; the hint never matters; caches never change a value;
 hinted = plain (`evaluateHint_eq`) and batch = pointwise (`evaluateBatch_eq`) for every cache state.
-Not a theorem: evaluation of the derivative trajectory = higher-order evaluation (decided by the correspondence and the exact oracle). -/
+derivative trajectory: `derivative_route` — evaluating `derivative(k)` at order `j` is evaluating the original at order `k+j`
+(well-formed object, every cache state; the falling-factorial factors compose: `factorEntry_comp`). -/
 open ST
 example : specIdx ([0, 1, 3] : List ℚ) 1 = 1 ∧ specIdx ([0, 1, 3] : List ℚ) (1/2) = 0 ∧ specIdx ([0, 1, 3] : List ℚ) 7 = 1 ∧ specIdx ([0, 1, 3] : List ℚ) (-2) = 0 := by
   simp [specIdx, countLE]; norm_num
